@@ -962,7 +962,7 @@ PROPS["C05"] = dict(
     level_text="Proved in Coq for every registry, scope and function (Properties/C05.v): an accepted impl function becomes a record with "
                "the declared name, visibility, arguments in order with their resolved types, the declared return type (never dropped), body "
                "'call absolute address A' with A the written #[address]; no address / unresolvable parameter / unresolvable return type are rejected; "
-               "the impl loop keeps every function in order. The back end prints that record verbatim; the printed wrapper is compared token for token "
+               "the impl loop keeps every function in order. On the emitted text (EmitFn*.v, readers proved to invert the printers): C05_wrapper_shape/_address (the printed function item, read back from its tokens, has the record's name, visibility, parameters, return type and a body that transmutes exactly address A to an extern \"cc\" fn pointer and calls it, receiver first, arguments in order) and C05_emitted_impl_function (in every accepted collision-free build each declared impl function has that wrapper, with the declared address and cc_spec, in the inherent impl of its type in the module's file). The printed wrapper is also compared token for token "
                "(signature, fn-pointer type, address by value, call arguments) with the real output, and the monitor re-derives address, argument order "
                "and single-call shape from the implementation's file against the description.",
     level_note="Trusted: Coq kernel; model validated by this run's correspondence; the meaning of the emitted body shape "
@@ -979,7 +979,7 @@ PROPS["C16"] = dict(
          "non-trivial = accepted with an impl function or a declared vftable",
     level_text="Proved in Coq (Properties/C16.v): every accepted function (impl or virtual) carries cc_spec = the named convention, else thiscall with "
                "a receiver, else system; unknown names are rejected; exactly the seven names are supported; the slot's fn-pointer type carries the "
-               "function's convention; placeholders are thiscall. Correspondence compares all fn-pointer types (vftable fields) and wrapper bodies; "
+               "function's convention; placeholders are thiscall. On the emitted text (EmitFn*.v): the ABI string read back from the tokens of a printed fn-pointer type is that of its convention (C16_fnptr_abi_read_back), every slot field of an emitted vftable struct carries its function record's convention (C16_emitted_slot_abi), and the wrapper of every declared impl function of an accepted build names cc_spec of the declaration (C05_emitted_impl_function). Correspondence compares all fn-pointer types (vftable fields) and wrapper bodies; "
                "the monitor recomputes the expected convention from the description for wrappers, slots and placeholders.",
     level_note="Trusted: Coq kernel; model validated by this run's correspondence; equality of a function's convention across derived tables follows from C06's "
                "prefix equality (proved there).",
@@ -1037,7 +1037,7 @@ PROPS["C04"] = dict(
     level_text="Proved in Coq (Properties/C04.v), for tables of any length: slot_plan positions = where the model puts each declared function, all other slots are "
                "_vfunc_k placeholders, table length max(size, last+1); contradicting index / too small size cannot be accepted; slot k of the generated struct is at byte offset k*ptr; "
                "RustExec: the wrapper loads the object's vftable pointer (own first field, or the base sub-object's accessor) and makes exactly one call to the entry in its slot with receiver "
-               "first and arguments in order. Correspondence compares vftable struct fields/types, accessor and wrapper bodies; the monitor re-derives slots, placeholder shape, "
+               "first and arguments in order. On the emitted text (EmitFn*.v): C04_emitted_vftable_struct -- for every type of an accepted build with a vftable block the module's file contains the struct <T>Vftable, repr(C, align(ptr)), one fn-pointer field per slot of the resolved table in slot order with the slot function's ABI, parameter and return types; a virtual function's wrapper is the template (self.vftable().<name>)(receiver, args..) (C05_wrapper_shape). Correspondence compares vftable struct fields/types, accessor and wrapper bodies; the monitor re-derives slots, placeholder shape, "
                "slot byte offsets (independent layout calculator) and wrapper call shape from the implementation's files against the description. C04_whole_build: end to end, the <T>Vftable item "
                "of the FINAL registry of every accepted collision_free build is the struct built from exactly the converted slot list, final from the moment its owner is resolved.",
     level_note="Trusted: Coq kernel; model validated by this run's correspondence; RustExec.v is the meaning given to the three-line wrapper template (spec side, not rustc); "
@@ -1084,7 +1084,7 @@ PROPS["C15"] = dict(
     rule="gen.py with singletons on 60% of types/enums and 1..4 extern values per module (pointer, array, user and built-in types; addresses in all literal spellings); "
          "near-miss: extern value without address; non-trivial = accepted with >= 1 singleton or extern value",
     level_text="Proved in Coq (Properties/C15.v): an extern value is registered only with an address attribute (last wins, negative rejected), keeps name/visibility/address, and ends with its declared type "
-               "resolved or the build fails; without an address it is rejected. RustExec defines the accessors' values (struct get: word at A, None when null; enum get: value at A; get_x: reference to A). "
+               "resolved or the build fails; without an address it is rejected. RustExec defines the accessors' values (struct get: word at A, None when null; enum get: value at A; get_x: reference to A). On the emitted text (EmitFn*.v): the printed get accessors read back exactly the address they were given (C15_emitted_singleton, C15_emitted_enum_singleton) and every extern value has, in its module's file, a get_<name> with its visibility casting exactly its address to &'static mut <declared type> (C15_emitted_extern_value). "
                "Correspondence compares the emitted accessor items token for token (address by value); the monitor checks signature, address and cast type against the description.",
     level_note="Trusted: Coq kernel; model validated by this run's correspondence; RustExec.v definitions for what the accessor bodies compute.",
 )
@@ -1186,7 +1186,7 @@ PROPS["C10"] = dict(
          "the expected set of unresolvable items is computed from the graph (least fixpoint of 'resolvable'); non-trivial = graph with >= 3 items",
     level_text="Proved in Coq (Properties/C10.v): a self-supporting set of items (each has an undefined field-type name or depends by value on a member) never resolves, and a no-progress end state is self-supporting "
                "(Confluence.v, abstract, any number of items); the loop needs at most 1 + #items rounds (C12); pointer sizes never read the pointee; a field with an undefined type defers, an undefined parameter or return type rejects (C05); "
-               "nothing is dropped: every declared parameter and the return type reach the emitted signature. For the model's real attempt: N1 (C10_attempt_N1), hence C10_stuck_set_never_accepted (an undefined field type or a by-value cycle keeps every schedule from accepting; C10_cycle_example) and C10_stuck_set_is_order_independent (the no-progress verdict and its item set do not depend on the schedule). N2 (every deferral has such a cause) is not proved -- it is false as stated when a size overflows, where model and pyxis defer forever -- so the converse direction is partial. "
+               "nothing is dropped: every declared parameter and the return type reach the emitted signature. For the model's real attempt: N1 (C10_attempt_N1), hence C10_stuck_set_never_accepted (an undefined field type or a by-value cycle keeps every schedule from accepting; C10_cycle_example) and C10_stuck_set_is_order_independent (the no-progress verdict and its item set do not depend on the schedule). The converse (StuckConverse.v): C10_attempt_N2 (every deferral of the model's real attempt has a cause: an undefined name, an unresolved by-value dependency, or an overflow of usize -- where model and pyxis defer forever), C10_noprogress_list_exact/_greatest (the error's list is exactly the set of unresolved items, non-empty, and the greatest self-supporting set), C10_wellfounded_never_noprogress (all names defined, no overflow, by-value embedding well founded => no schedule ends in the no-progress error; C10_no_overflow_decidable gives a decidable sufficient condition for the overflow hypothesis). Not proved: that an overflow cause always defers (tightness). "
                "The monitor decides the property on the real code against the graph-theoretic expectation: accepted iff all names defined and by-value embedding acyclic; the no-progress error lists exactly the unresolvable items; accepted builds contain every item.",
     level_note="Trusted: Coq kernel; model validated by this run's correspondence (verdict, no-progress set, items, signatures); the expectation is computed by the generator from the graph it drew.",
 )
